@@ -15,12 +15,20 @@ Fixpoint esize (e : expr) : nat :=
   | EBin _ a b => S (esize a + esize b)
   | ECall f args => S (esize f + list_sum (map esize args))
   | EIf c t f => S (esize c + esize t + esize f)
+  | EList es => S (list_sum (map esize es))
+  | EStruct _ fields => S (list_sum (map (fun fe => esize (snd fe)) fields))
   | _ => 1
   end.
 
 Lemma esize_in : forall (a : expr) args, In a args -> esize a <= list_sum (map esize args).
 Proof.
   induction args; simpl; intros H; [tauto|]. destruct H as [->|H]; [lia|]. specialize (IHargs H). lia.
+Qed.
+
+Lemma esize_in_fields : forall (f : str) (a : expr) fields, In (f, a) fields ->
+  esize a <= list_sum (map (fun fe => esize (snd fe)) fields).
+Proof.
+  induction fields; simpl; intros H; [tauto|]. destruct H as [->|H]; [simpl; lia|]. specialize (IHfields H). lia.
 Qed.
 
 Lemma at_level_lvl : forall k s, k <= 16 -> k <= lvl (at_level k s).
@@ -95,6 +103,22 @@ Proof.
     + simpl. rewrite !at_level_wf, W1, W2, W3. simpl.
       rewrite !leb_intro by (apply at_level_lvl; lia). reflexivity.
     + simpl. rewrite !at_level_desugar, D1, D2, D3. reflexivity.
+  - (* EList *)
+    assert (HA : forall a, In a es -> wf (min_paren a) = true /\ desugar (min_paren a) = a).
+    { intros a Ha. apply IHn. pose proof (esize_in a es Ha). lia. eapply forallb_forall in Hp; eauto. }
+    split.
+    + simpl. apply forallb_forall. intros s Hs'. apply in_map_iff in Hs'. destruct Hs' as (a & <- & Ha).
+      apply HA. exact Ha.
+    + simpl. f_equal. rewrite map_map. rewrite <- (map_id es) at 2. apply map_ext_in. intros a Ha. apply HA. exact Ha.
+  - (* EStruct *)
+    assert (HA : forall f a, In (f, a) fields -> wf (min_paren a) = true /\ desugar (min_paren a) = a).
+    { intros f a Ha. apply IHn. pose proof (esize_in_fields f a fields Ha). lia.
+      eapply forallb_forall in Hp; [|exact Ha]. exact Hp. }
+    split.
+    + simpl. apply forallb_forall. intros s Hs'. apply in_map_iff in Hs'. destruct Hs' as ([f a] & <- & Ha).
+      simpl. eapply HA. exact Ha.
+    + simpl. f_equal. rewrite map_map. rewrite <- (map_id fields) at 2. apply map_ext_in.
+      intros [f a] Ha. simpl. f_equal. eapply HA. exact Ha.
 Qed.
 
 (* every abstract tree, rendered with the minimal parentheses of the table,
